@@ -152,6 +152,25 @@ CURATED: Dict[str, Spec] = {
         ("v1.0", A()),
         ("B", C(("A", A()), ("x", A()), cid="beta")),
     ),
+    # sibling keys in a string-prefix relation (R/R2, a/ab, P/P2): id-prefix
+    # tests must respect the '.' separator
+    "CUR10": C(
+        ("P", P(
+            ("R", C(("a", A()), ("ab", A()), ("f", F()))),
+            ("R2", C(("c", A()), ("f", F()))),
+            ("R21", C(("e", A()), ("ee", A()))),
+        )),
+        ("P2", A()),
+    ),
+    # three regions below one parallel state (shared-ancestor selection)
+    "CUR11": C(
+        ("P", P(
+            ("R1", C(("a", A()), ("a2", A()))),
+            ("R2", C(("c", A()))),
+            ("R3", C(("e", A()), ("e2", A()))),
+        )),
+        ("O", A()),
+    ),
     "CUR9": C(
         ("W", C(
             ("s1", A()),
